@@ -16,10 +16,14 @@ Everything after ` | ` on an op line is the oracle annotation the harness observ
   forge <dst> <role> <static-ident> <cert-ident> <cert-ver> <hs|full> <CertVersion> <ii> <ri> <seed> <m1reg|-> | len=<n>
         -> ok len=<n>    (a hand-driven noise peer with its own static key sends a crafted payload)
   pair <mI> <mR> | same=<0|1>                   -> none | ek= ke= xx= ri= li= mi= nz=
+  seed <m> <mi|->                               -> none | err | ok mc=<messageCounter> chk=<Check of the probe counters>
+        (newConnectionStateFromResult on m's Result, MessageIndex optionally overridden)
 -/
 import Nebula.Driver.Common
 import Nebula.Model.Machine
 import Nebula.Spec.Handshake
+import Nebula.Model.WindowSeed
+import Nebula.Spec.Window
 
 namespace Nebula.Driver.Machine
 open Nebula.Driver Nebula.Wire Nebula.Machine
@@ -112,6 +116,12 @@ def implFailed (impl : String) : Option Bool := (kv (impl.splitOn " ") "f").map 
 
 def bit (b : Bool) : String := boolStr b
 
+/-- the counters probed with `Check` after seeding: around 0, around `mi`, around the far window edge. -/
+def seedProbes (mi : Nat) : List Nat :=
+  [0, 1, 2] ++ (if mi ≥ 1 then [mi - 1] else []) ++ [mi, mi + 1, mi + 2, mi + 8191, mi + 8192, mi + 8193]
+
+def bitsStr (l : List Bool) : String := String.ofList (l.map (fun b => if b then '1' else '0'))
+
 def step (s : S) (args : List String) (impl : String) : S × Out :=
   let (op, ann) := splitAnn args
   match op with
@@ -195,6 +205,26 @@ def step (s : S) (args : List String) (impl : String) : S × Out :=
     (setR s dst none, { model := s!"ok len={(kv ann "len").getD "?"}", tag := "triv:forge" })
   | "mut" :: dst :: _ =>
     (setR s dst none, { model := s!"ok len={(kv ann "len").getD "?"}", tag := "triv:mut" })
+  | ["seed", m, mi] =>
+    match findM s m with
+    | some mm =>
+      match mm.result with
+      | none => (s, { model := "none", tag := "triv:seed:incomplete" })
+      | some r =>
+        let mi := (mi.toNat?).getD r.messageIndex
+        let model :=
+          match WindowSeed.seed mi with
+          | none => "err"
+          | some (b, mc) => s!"ok mc={mc} chk={bitsStr ((seedProbes mi).map (fun i => Bits.check b (BitVec.ofNat 64 i)))}"
+        -- C06 / replay protection: the handshake's own counters 0..mi count as seen, mi+1 is the next
+        -- one accepted and sent — computed from the specification window (Spec/Window), not the model
+        let want :=
+          if mi ≥ 8192 then "err" else
+          let w : Window.W := (List.range (mi + 1)).reverse
+          s!"ok mc={mi} chk={bitsStr ((seedProbes mi).map (fun i => Window.accepts 8192 w i))}"
+        (s, { model := model, verdict := expect "window-seed" impl want,
+              tag := if mi ≥ 8192 then "seed:refused" else if mi == r.messageIndex then "seed:actual" else "seed:override" })
+    | none => (s, badOp)
   | ["pair", mi, mr] =>
     match findM s mi, findM s mr, kv ann "same" with
     | some a, some b, some same =>
